@@ -45,7 +45,7 @@ CLAIMED.update({
         ref='DESIGN.md section 7, C05'),
     'C14': dict(
         text='C14_first_offending_record / C14_emissions_first_failure: the error reported is that of the FIRST record (A-major, B order) whose JOIN key, WHERE, select list or ORDER BY evaluation fails, carrying its number and field; '
-             'UPDATE first error with the exact prefix written; join-build error before any write; field-count and None warnings iff. Real code tied with a poisoned record at every position x every clause, static-error battery '
+             'UPDATE first error with the exact prefix written; join-build error before any write; field-count and None warnings iff; reader warnings on the Python reader machine: BOM flag iff the first physical line starts with the configured BOM (C14_bom_flag_iff_first_line_has_bom), defective-line warning names the first line on which the splitter warned and only such a line (C14_defective_line_iff), quoted_rfc malformed record is an error iff the splitter warned on it (C14_rfc_malformed_is_io_error). Real code tied with a poisoned record at every position x every clause, static-error battery '
              '(no write before a parsing error), CSV anomaly files.',
         note='Trusted: Lean kernel + standard axioms; host exception texts are classified, not modelled; parsing errors detected from the query text are checked on the implementation directly (no parser model yet).',
         ref='DESIGN.md section 7, C14'),
@@ -105,10 +105,11 @@ CLAIMED.update({
         ref='DESIGN.md section 7, C16'),
     'C10': dict(
         text='Line level: C10_line_roundtrip_quoted (every good delimiter, single- or multi-character; no field condition for one-character delimiters), simple and monocolumn round trips; '
-             'file level: C10_file_lines_roundtrip for LF/CRLF/CR; lossy output warns (C10_lossy_simple_warns, C10_none_sets_flag); C10_overlap_counterexample shows why multi-character '
+             'whitespace (C10_line_roundtrip_whitespace, C10_whitespace_tokens_spec) and quoted_rfc (C10_line_roundtrip_rfc, parity C10_rfc_written_quote_parity) line round trips; '
+             'file level: C10_file_lines_roundtrip for LF/CRLF/CR and C10_rfc_file_roundtrip (the real chunked reader machine with quote-parity assembly of multi-line records, any chunking); lossy output warns (C10_lossy_simple_warns, C10_none_sets_flag); C10_overlap_counterexample shows why multi-character '
              'delimiters need the overlap hypothesis. The real writer+reader pair (py and js) is tied to the model on written text, read-back records and all warnings, and checked against an '
              'independent representability oracle.',
-        note='Partial: the quoted_rfc multi-line record assembly and the whitespace policy round trip are tied by the correspondence, not proved; codecs trusted.',
+        note='Proved for all four policies at line level and, for quoted_rfc, through the Python reader machine at file level (CR inside a quoted field is normalised to LF by text-mode reading: stated, not hidden). Partial: the JS writer/reader pair is tied by the correspondence and C18 agreement theorems; codecs trusted.',
         ref='DESIGN.md section 7, C10'),
     'C17': dict(
         text='Theorem C17_like_correct: the token/regex machine produced by like_to_regex matches exactly the SQL LIKE specification for every pattern and every single-line text '
